@@ -8,6 +8,7 @@ slot, comments, PIs).  For every node, a grid of ambient filters D (default_filt
       Coq on the plain tree (read through iterate_children only) as the oracle: the routines whose theorem is unguarded
       (UNGUARDED below) under all ambient filters, the others under none, the library default (tag or text), tags only.
 """
+import gc
 import json
 import sys
 
@@ -56,7 +57,18 @@ DOCS = ['<r>a<x/>b<!--c-->d<y>e<z/>f</y>g</r>', '<r><x/><y/></r>', '<r>t</r>', '
         '<r><a><!--c--></a><x>1<i/>2<?p q?>3</x>4<y/>5</r>', '<r><!--c--><x><y><z>t</z></y></x><?p q?></r>',
         '<r><x>1<i/>2<j/>3</x>4<y/>5</r>', '<r><a><b><!--c--><?p?></b></a>t<x><x>u</x></x></r>']
 STRS = ["T", "uu", "w w", " "]
-OPS = ["append", "prepend", "insert", "follow", "precede", "detach", "replace", "merge"]
+# fixed histories (detection must not depend on the seed): queries are made on the held objects before every step and
+# after the last one.  <r><a><b><c>t</c></b></a><x><y/></x>u</r>: r0 a1 b2 c3 t4 x5 y6 u7
+MOVE_DOC = '<r><a><b><c>t</c></b></a><x><y/></x>u</r>'
+FIXED_HISTORIES = [
+    (MOVE_DOC, [["detach", 2, 0, [["str", "-"]]], ["append", 3, 0, [["loose", 0]]]]),      # b (with c, t) from a to below y
+    (MOVE_DOC, [["move", 2, 5, []]]),                                                        # b below x
+    (MOVE_DOC, [["move", 5, 1, []], ["move", 3, 0, []]]),                                    # x below a, then c up to r
+    (MOVE_DOC, [["precede", 5, 0, [["tag", "n"], ["str", "s"]]], ["detach", 1, 0, [["str", "-"]]]]),   # siblings before held x
+    (MOVE_DOC, [["append", 2, 0, [["str", "p"], ["str", "q"]]], ["merge", 2, 0, [["str", "-"]]],
+                ["prepend", 0, 0, [["comment", "cc"]]]]),
+]
+OPS = ["append", "prepend", "insert", "follow", "precede", "detach", "replace", "merge", "move", "move"]
 
 
 # ------------------------------------------------------------------------------------------------ trees
@@ -93,6 +105,31 @@ def doc_order(root):
     return out
 
 
+def touch(nodes):
+    """query the navigation relations of held node objects (results discarded): whatever an object remembers from a
+    query must not survive an edit of the tree - the queries after the history are made on the same objects"""
+    for amb in (None, ()):
+        ctxm = altered_default_filters(*amb) if amb is not None else None
+        if ctxm is not None:
+            ctxm.__enter__()
+        try:
+            for n in nodes:
+                for q in (lambda: n.depth, lambda: n.index, lambda: n.parent, lambda: n.first_child, lambda: n.last_child,
+                          lambda: n.last_descendant, lambda: n.full_text, lambda: n.document,
+                          lambda: list(n.iterate_ancestors()), lambda: n.fetch_following_sibling(),
+                          lambda: n.fetch_preceding_sibling(), lambda: n.fetch_following(), lambda: n.fetch_preceding(),
+                          lambda: len(n) if isinstance(n, TagNode) else None,
+                          lambda: n.location_path if isinstance(n, TagNode) else None,
+                          lambda: list(n.iterate_descendants()), lambda: list(n.iterate_following_siblings())):
+                    try:
+                        q()
+                    except Exception:  # noqa: BLE001
+                        pass
+        finally:
+            if ctxm is not None:
+                ctxm.__exit__(None, None, None)
+
+
 def run_plan(xml, plan):
     """returns (root, keep) - the tree reached; every node object ever seen is kept alive.
     xml may also be 'loose:comment', 'loose:pi', 'loose:text' (a parentless node, a one-node tree) or 'loose:tag'"""
@@ -105,6 +142,14 @@ def run_plan(xml, plan):
                 node.append_children("a", new_comment_node("c"), tag("x"), "b")
                 node[2].append_children(TextNode("u"), TextNode("v"))
         return node, [node]
+    if xml == "gc:tail-chain":
+        # only a later member of a tail text chain is held while the cyclic collector runs
+        doc = Document('<root><a/>one</root>')
+        with altered_default_filters():
+            doc.root.append_children('two', 'three')
+            held = doc.root[3]
+        gc.collect()
+        return doc.root, [doc, held]
     doc = Document(xml)
     keep = [doc]
     loose = []
@@ -113,7 +158,22 @@ def run_plan(xml, plan):
         for op, tsel, isel, args in plan:
             nodes = doc_order(root)
             keep.extend(nodes)
+            touch(nodes + loose)
             target = nodes[tsel % len(nodes)]
+            if op == "move":                      # detach a subtree and re-attach it somewhere else, at another level
+                dest = nodes[isel % len(nodes)]
+                if not isinstance(dest, TagNode):
+                    dest = dest.parent
+                inside = set(id(x) for x in doc_order(target))
+                if target is root or dest is None or id(dest) in inside:
+                    continue
+                moved = target.detach()
+                kids = len(dest)
+                try:
+                    dest.insert_children(tsel % (kids + 1), moved)
+                except InvalidOperation:
+                    loose.append(moved)
+                continue
             offered = []
             for kind, v in args:
                 if kind == "str":
@@ -335,11 +395,42 @@ def real_frames(d, ambient, to_sort):
                 out[(i, 22, fi)] = call(lambda: list(ttb(n, *F)), e_ids)
         out[(-1, 23, 0)] = call(lambda: list(_sort_nodes_in_document_order([d.order[i] for i in to_sort])), e_ids)
 
+    def suspended():
+        """the same relations queried in the body of a loop over a suspended iterator must see the caller's filters"""
+        tags = [n for n in d.order if isinstance(n, TagNode)]
+        if not tags:
+            return
+        r = tags[0]
+        inner = tags[len(tags) // 2]
+        gens = [("iterate_descendants", lambda: r.iterate_descendants()), ("iterate_children", lambda: r.iterate_children()),
+                ("iterate_following", lambda: inner.iterate_following()), ("iterate_preceding", lambda: d.order[-1].iterate_preceding()),
+                ("iterate_ancestors", lambda: d.order[-1].iterate_ancestors()),
+                ("iterate_following_siblings", lambda: inner.iterate_following_siblings()),
+                ("traverse_df_ltr_ttb", lambda: ttb(r)), ("traverse_bf_ltr_ttb", lambda: bf(r)), ("traverse_df_ltr_btt", lambda: btt(r))]
+        bad = []
+        for gname, make in gens:
+            try:
+                for n in make():
+                    i = idof(n)
+                    got = {(idof(r), 2, 0): call(lambda: len(r), e_nat), (idof(r), 3, 0): call(lambda: r.first_child, e_opt),
+                           (idof(r), 4, 0): call(lambda: r.last_child, e_opt), (i, 7, 0): call(lambda: n.index, e_optnat),
+                           (i, 9, 0): call(lambda: n.fetch_following_sibling(), e_opt),
+                           (idof(inner), 1, 0): call(lambda: list(inner.iterate_children()), e_ids)}
+                    for key, v in got.items():
+                        if key in out and out[key] != v and len(bad) < 3:
+                            bad.append({"suspended": gname, "at": i, "node": key[0], "routine": ROUTINE[key[1]],
+                                        "inside_loop": v, "outside": out[key]})
+            except Exception:  # noqa: BLE001
+                pass
+        out["suspended"] = bad
+
     if ambient is None:
         body()
+        suspended()
     else:
         with altered_default_filters(*ambient):
             body()
+            suspended()
     return out
 
 
@@ -488,6 +579,10 @@ def check_trees(ctx, cases):
                 ctx.count(1, "history-raised-" + type(e).__name__)
                 continue
             d = Dump(root)
+            if case["xml"].startswith("gc:") and id(keep[1]) not in d.ids:
+                ctx.fail("a node object the program holds is no longer part of its tree after a garbage collection",
+                         {"xml": case["xml"], "plan": [], "seed": 0, "tree": d.tree, "routine": "identity",
+                          "held": str(keep[1])}, classify)
             if not d.ok:
                 ctx.count(1, "outside-domain(empty text object)")
                 continue
@@ -524,6 +619,9 @@ def check_trees(ctx, cases):
                 ctx.mismatch("evaluation of CNav/ANav", "coqc failed on the case file for %r" % (case0,))
                 continue
             model, spec = parse_frames(cm), parse_frames(am)
+            for b in real.pop("suspended", []):
+                ctx.fail("%s queried while %s is suspended differs from the same query outside the loop"
+                         % (b["routine"], b["suspended"]), dict(case0, **b), classify)
             ctx.count(len(real), "ambient=" + name + "/" + shape)
             for key, r in real.items():
                 if model.get(key) != r:
@@ -594,6 +692,8 @@ def run(ctx, args):
     quick = ctx.tier == "quick"
     cases = [{"xml": x, "plan": [], "seed": i} for i, x in enumerate(DOCS)]
     cases += [{"xml": "loose:" + k, "plan": [], "seed": 0} for k in ("comment", "pi", "text", "tag")]
+    cases += [{"xml": x, "plan": pl, "seed": 0} for x, pl in FIXED_HISTORIES]
+    cases.append({"xml": "gc:tail-chain", "plan": [], "seed": 0})
     cases += [{"xml": x, "plan": [], "seed": i} for i, x in enumerate(DOCS_TOP)]
     for i in range(3 if quick else 40):
         cases.append({"xml": ctx.rng.choice(DOCS_TOP), "plan": gen_plan(ctx.rng, ctx.rng.randint(1, 6)),
